@@ -5,11 +5,14 @@ Case = {"cfg": "graph"|"sgraph"|"cg"|"nest", "two": bool, "init": [[s,p,o,c]…]
                 | compound writes (addn, parse, set, isub, rmctx, addf)
                 | ["upd",w,"insert"|"delete",quads] | ["upd",w,"clear",c] | ["upd",w,"delwhere",s,p,o,c]   (round g: SPARQL Update through Graph.update)
                 | ["bind",w,pfx,ns,override] | ["pass",w,kind]                      (round g: pass-through, not logged)
-                | ["triples",w,s,p,o,c] | ["len",w,c] | ["ctxs",w] | ["tctx",w,s,p,o] | ["ns",w]   (round g: reads through the wrapper)]}
+                | ["triples",w,s,p,o,c] | ["len",w,c] | ["ctxs",w] | ["tctx",w,s,p,o] | ["ns",w]   (round g: reads through the wrapper)
+                | ["bound",w]   (are the Graph objects handed out by contexts() / triples() / quads() bound to the wrapper)]}
 route (round g): absent = through Graph / ConjunctiveGraph objects as before; "store" = the wrapper's own add()/remove();
 "ident" = ConjunctiveGraph quad whose graph is given as an identifier, not a Graph object; "ctxobj" = through the Graph object that
 ConjunctiveGraph.contexts() (= AuditableStore.contexts()) hands out for that name, when there is one; "self" = a quad of the
-default graph given as `(s, p, o, cg)` with cg the ConjunctiveGraph itself (the wrapper then receives a ConjunctiveGraph as context).
+default graph given as `(s, p, o, cg)` with cg the ConjunctiveGraph itself (the wrapper then receives a ConjunctiveGraph as context);
+"ctxof" / "quadctx" / "tripctx" = through the Graph object of that name that `cg.contexts(<a triple the graph holds>)`, `cg.quads()` or the
+wrapper's own `triples()` hands out, when there is one (every graph object obtained through the wrapper must log through the wrapper).
 cfg "nest" (round g): ConjunctiveGraph over AuditableStore(AuditableStore(Memory)); wrapper 0 = outer (all operations),
 wrapper 1 = inner (commit / rollback behind the outer wrapper's back).
 Terms are small integers (vocabulary below, falsy literals included); graph names 90…93 (93 = the name rdflib gives a graph requested as <>).
@@ -53,7 +56,7 @@ DEFAULT_G = 99  # the dataset's / conjunctive graph's default graph
 PFX = {1: "zpa", 2: "zpb", 3: ""}           # prefixes (the falsy one included); none is among rdflib's default bindings
 NSP = {7: URIRef("http://n/7#"), 8: URIRef("http://n/8#"), 9: URIRef("http://n/9#")}
 PASS_KINDS = ["open", "close", "close_commit", "destroy", "query"]
-READS = ("triples", "len", "ctxs", "tctx", "ns")
+READS = ("triples", "len", "ctxs", "tctx", "ns", "bound")
 
 
 def _ids(cfg):
@@ -83,7 +86,7 @@ def gen_case(rng, tier, i):
     def route():
         if cfg == "sgraph":
             return []
-        r_ = rng.choice([None, None, "store", "ident", "ctxobj", "self"] if cfg in ("cg", "nest") else [None, None, "store"])
+        r_ = rng.choice([None, None, "store", "ident", "ctxobj", "self", "ctxof", "quadctx", "tripctx"] if cfg in ("cg", "nest") else [None, None, "store"])
         return [r_] if r_ else []
 
     def known(kinds):
@@ -112,7 +115,7 @@ def gen_case(rng, tier, i):
             continue
         if r0 < 0.20:
             wr = rng.randint(0, 1) if (two or nest) else 0          # reads through either wrapper
-            kind = rng.choice(["ns"] if cfg == "sgraph" else ["triples", "triples", "len", "ctxs", "tctx", "ns"])
+            kind = rng.choice(["ns"] if cfg == "sgraph" else ["triples", "triples", "len", "ctxs", "tctx", "ns", "bound"])
             pool = init + known(("add",))
             q = list(rng.choice(pool)) if pool and rng.random() < 0.7 else quad(subs)
             if kind == "triples":
@@ -329,6 +332,24 @@ def run_impl(case):
                 return g_
         return top.get_context(gn[c])
 
+    def handed_out_by(route, top, st, c, held):
+        """the Graph object named gn[c] that a READ through the wrapper hands out (None if that read yields none)"""
+        cands = []
+        if route == "ctxof":
+            for q_ in held:
+                if q_[3] == c:
+                    cands = list(top.contexts((TERM[q_[0]], TERM[q_[1]], TERM[q_[2]])))
+                    break
+        elif route == "quadctx":
+            cands = [g_ for _s, _p, _o, g_ in top.quads((None, None, None))]
+        else:
+            for _t, cg_ in st.triples((None, None, None), None):
+                cands.extend(cg_)
+        for g_ in cands:
+            if isinstance(g_, Graph) and g_.identifier == gn[c] and not isinstance(g_, ConjunctiveGraph):
+                return g_
+        return top.get_context(gn[c])
+
     for st_ in sts:
         if not (st_.transaction_aware is True and st_.formula_aware is False and st_.context_aware == mem.context_aware):
             viol.append("flags: AuditableStore must be transaction aware, not formula aware, and context aware as the wrapped store is")
@@ -373,6 +394,20 @@ def run_impl(case):
                 if cs != want:
                     viol.append(f"read: op {k} contexts({(s, p, o)}) through the wrapper answered {cs}, the store holds it in {want}")
                 obs.append(",".join(map(str, cs)))
+            elif kind == "bound":
+                # every Graph object obtained through the wrapper must write through the wrapper
+                a = [g_ for g_ in st.contexts() if isinstance(g_, Graph)]
+                b = [g_ for _t, cg_ in st.triples((None, None, None), None) for g_ in cg_ if isinstance(g_, Graph)]
+                via_top = []
+                if cfg == "cg" and not (nest and w == 1):
+                    via_top = [g_ for _s, _p, _o, g_ in top.quads((None, None, None))] + list(top.contexts())
+                    for q_ in B[:3]:
+                        via_top += list(top.contexts((TERM[q_[0]], TERM[q_[1]], TERM[q_[2]])))
+                loose = [g_ for g_ in a + b + via_top if g_.store is not st]
+                if loose:
+                    viol.append(f"bound: op {k}: a Graph object handed out through the wrapper (contexts / triples / quads) is bound to "
+                                f"another store ({type(loose[0].store).__name__}): writes through it would bypass the undo log")
+                obs.append(f"{int(all(g_.store is st for g_ in a))} {int(all(g_.store is st for g_ in b))}")
             else:
                 ns, pf, listed = _bindings(st)
                 if sorted(ns) != listed:
@@ -418,6 +453,8 @@ def run_impl(case):
                 handed_out(top, c).add((t(s), t(p), t(o)))
             elif route == "self" and c == DEFAULT_G:
                 top.add((t(s), t(p), t(o), top))
+            elif route in ("ctxof", "quadctx", "tripctx"):
+                handed_out_by(route, top, st, c, before).add((t(s), t(p), t(o)))
             elif k % 2 == 0:
                 top.add((t(s), t(p), t(o), top.get_context(gn[c])))
             else:
@@ -497,6 +534,8 @@ def run_impl(case):
                 handed_out(top, c).remove((t(s), t(p), t(o)))
             elif route == "self" and c == DEFAULT_G:
                 top.remove((t(s), t(p), t(o), top))
+            elif route in ("ctxof", "quadctx", "tripctx"):
+                handed_out_by(route, top, st, c, before).remove((t(s), t(p), t(o)))
             elif k % 2 == 0:
                 top.remove((t(s), t(p), t(o), top.get_context(gn[c])))
             else:
@@ -687,4 +726,10 @@ def _m_cg_as_graph(case, result):
             and any(v.startswith("rollback") for v in result["viol"]))
 
 
-MATCHERS = {"conjunctive_graph_as_context": _m_cg_as_graph, "remove_readd_rollback": _m_readd, "foreign_graph_object": _m_foreign}
+def _m_triples_graphs(case, result):
+    """a write through the graph object of a quad from quads() / triples(), then rollback"""
+    return (any(o[0] in ("add", "remove") and len(o) > 6 and o[6] in ("quadctx", "tripctx") for o in case["ops"])
+            and any(v.startswith("rollback") for v in result["viol"]))
+
+
+MATCHERS = {"graph_of_a_quad_bypasses_log": _m_triples_graphs, "conjunctive_graph_as_context": _m_cg_as_graph, "remove_readd_rollback": _m_readd, "foreign_graph_object": _m_foreign}
